@@ -105,8 +105,8 @@ func zzSameBytes04(got, want []byte, label string) {
 func zzH_C04_builtin()    { zzRoundtrip(zzBuiltinTable(0), zzProtectedBasic) }
 func zzH_C04_builtinAll() { zzRoundtrip(zzBuiltinTable(1), zzProtectedAll) }
 
-// zzSymTable: an arbitrary well-formed announced table = the leader entry plus K arbitrary entries, injective in
-// both directions, no entry for the leader byte other than the leader entry, codes distinct from the escaped bytes.
+// zzSymTable: an arbitrary well-formed announced table = an entry for the leader byte (code arbitrary) plus K arbitrary
+// entries, injective in both directions, codes distinct from the protected bytes.
 func zzSymTable() (*escapeTable, []byte) {
 	p, prot := zzSymPairs()
 	return zzMkTable(p), prot
@@ -121,20 +121,23 @@ func zzB(c bool) int {
 
 func zzSymPairs() ([][2]byte, []byte) {
 	k := verifBound("K")
-	pairs := [][2]byte{{0xee, 0xee}}
+	// the leader byte itself must be escaped, to a code of the server's choice (not necessarily 0xEE)
+	c0 := verifNondetByte()
+	pairs := [][2]byte{{0xee, c0}}
 	var prot []byte
 	for i := 0; i < k; i++ {
 		b, c := verifNondetByte(), verifNondetByte()
 		verifAssume(b != 0xee)
-		verifAssume(c != 0xee)
+		for _, p := range pairs {
+			verifAssume(c != p[1]) // codes pairwise distinct (a code may well be 0xEE if the leader uses another one)
+		}
 		for _, p := range pairs[1:] {
 			verifAssume(b != p[0])
-			verifAssume(c != p[1])
 		}
 		pairs = append(pairs, [2]byte{b, c})
 		prot = append(prot, b)
 	}
-	for _, p := range pairs[1:] {
+	for _, p := range pairs {
 		for _, q := range pairs[1:] {
 			verifAssume(p[1] != q[0]) // a code is not itself a protected byte
 		}
